@@ -132,8 +132,8 @@ func c11Points(times []int64) []c11Point {
 	return out
 }
 
-func (p c11Point) row(pid int) influx.Row {
-	r := influx.Row{Name: c11Mst, Timestamp: p.T}
+func (p c11Point) row(pid int, mst string) influx.Row {
+	r := influx.Row{Name: mst, Timestamp: p.T}
 	if p.Host != "" {
 		r.Tags = append(r.Tags, influx.Tag{Key: "host", Value: p.Host})
 	}
@@ -148,8 +148,8 @@ func (p c11Point) row(pid int) influx.Row {
 }
 
 // accepted: the statement speaks about accepted points; a point lacking a shard-key tag is rejected by design.
-func (p c11Point) hasKey(c c11Config) bool {
-	for _, k := range c.Key {
+func (p c11Point) hasKey(key []string) bool {
+	for _, k := range key {
 		if (k == "host" && p.Host == "") || (k == "region" && p.Region == "") {
 			return false
 		}
@@ -213,7 +213,26 @@ func (s *c11Store) WriteRows(ctx *netstorage.WriteContext, nodeID uint64, pt uin
 	return nil
 }
 
+// c11Msts: the configuration's measurement plus two more with other measurement-level shard keys (same sharding
+// type - a retention policy admits only one). They share write requests with the first one.
+var c11Msts = []string{c11Mst, "m2", "m3"}
+
+var c11KeyRing = [][]string{{"host"}, {"region"}, {"host", "region"}, nil}
+
+// c11MstKeys returns the declared shard key of every measurement: m has the configuration's key, m2 and m3 the
+// next two of the ring.
+func c11MstKeys(c c11Config) [][]string {
+	at := 3
+	for i, k := range c11KeyRing {
+		if strings.Join(k, ",") == strings.Join(c.Key, ",") {
+			at = i
+		}
+	}
+	return [][]string{c.Key, c11KeyRing[(at+1)%4], c11KeyRing[(at+2)%4]}
+}
+
 type c11World struct {
+	keys   [][]string // effective shard key per measurement (the database-level key overrides)
 	cfg    c11Config
 	data   *meta2.Data
 	mc     *c11Meta
@@ -257,8 +276,14 @@ func c11NewWorld(c c11Config) *c11World {
 		data.PtView[c11DB][i].Status = meta2.Online
 	}
 	c11Must(data.CreateMeasurement(c11DB, c11RP, c11Mst, mstKey, int32(c.NumOfShards), nil, config.TSSTORE, nil, nil, nil))
+	declared := c11MstKeys(c)
+	c11Must(data.CreateMeasurement(c11DB, c11RP, c11Msts[1], &proto2.ShardKeyInfo{ShardKey: declared[1], Type: proto.String(typ)}, int32(c.NumOfShards), nil, config.TSSTORE, nil, nil, nil))
+	c11Must(data.CreateMeasurement(c11DB, c11RP, c11Msts[2], &proto2.ShardKeyInfo{ShardKey: declared[2], Type: proto.String(typ)}, 0, nil, config.TSSTORE, nil, nil, nil))
 
-	w := &c11World{cfg: c, data: data}
+	w := &c11World{cfg: c, data: data, keys: declared}
+	if c.KeyAtDB {
+		w.keys = [][]string{c.Key, c.Key, c.Key}
+	}
 	cl := &metaclient.Client{}
 	cl.SetCacheData(data)
 	w.mc = &c11Meta{Client: cl, data: data}
@@ -271,11 +296,12 @@ func c11NewWorld(c c11Config) *c11World {
 	return w
 }
 
-// write sends the points (in the given order, batch = all of them) through the real writer and returns pid -> shards.
+// write sends one write request (rows in the given order) through the real writer and returns gpid -> shards.
+// gpid = measurement index * len(points) + point index.
 func (w *c11World) write(points []c11Point, order []int) (map[int][]uint64, error) {
 	rows := make([]influx.Row, 0, len(order))
-	for _, pid := range order {
-		rows = append(rows, points[pid].row(pid))
+	for _, gp := range order {
+		rows = append(rows, points[gp%len(points)].row(gp, c11Msts[gp/len(points)]))
 	}
 	w.store.sent = map[int][]uint64{}
 	err := w.pw.RetryWritePointRows(c11DB, c11RP, rows)
@@ -336,8 +362,8 @@ func (m *c11Mapper) MapShards(stmt *influxql.SelectStatement, t influxql.TimeRan
 func (m *c11Mapper) Close() error { return nil }
 
 // mapQuery: SELECT text -> production parser -> RewriteStatement -> query.Prepare -> MapShards.
-func (w *c11World) mapQuery(where string) (shards map[uint64]bool, tmin, tmax int64, cond string, err error) {
-	sql := fmt.Sprintf("SELECT usage FROM %s.%s.%s", c11DB, c11RP, c11Mst)
+func (w *c11World) mapQuery(mst, where string) (shards map[uint64]bool, tmin, tmax int64, cond string, err error) {
+	sql := fmt.Sprintf("SELECT usage FROM %s.%s.%s", c11DB, c11RP, mst)
 	if where != "" {
 		sql += " WHERE " + where
 	}
@@ -728,6 +754,7 @@ type c11Case struct {
 	Cfg    c11Config `json:"cfg"`
 	Where  string    `json:"where"` // configuration-independent name of the condition ("" = write side only)
 	Tier   string    `json:"tier"`
+	Mst    string    `json:"mst"`    // measurement the query reads ("" = m)
 	Direct bool      `json:"direct"` // the violation was seen by the direct TargetShards probe
 }
 
@@ -899,7 +926,11 @@ func c11RunConfig(rep *kit.Report, cfg c11Config, thorough bool, owner bool, con
 		}
 	}
 
-	stored := map[c11Stored]bool{}
+	n := len(points)
+	stored := make([]map[c11Stored]bool, len(c11Msts))
+	for i := range stored {
+		stored[i] = map[c11Stored]bool{}
+	}
 	// checkWrite validates one routing result and returns pid -> shard (accepted points only)
 	// same shard on repeat: per (point, covering group). After a re-sharding two groups cover the times after the
 	// split; the statement does not say which of them takes a new point (both are consulted by reads), so the
@@ -911,12 +942,17 @@ func c11RunConfig(rep *kit.Report, cfg c11Config, thorough bool, owner bool, con
 	firstShard := map[pidGroup]uint64{}
 	checkWrite := func(phase string, pids []int, sent map[int][]uint64, err error) {
 		for _, pid := range pids {
-			p := points[pid]
+			p := points[pid%n]
+			mi := pid / n
+			phase := phase
+			if mi > 0 {
+				phase = c11Msts[mi] + " " + phase
+			}
 			if owner {
 				rep.Eval(1)
 			}
 			shs := sent[pid]
-			if !p.hasKey(cfg) {
+			if !p.hasKey(w.keys[mi]) {
 				if len(shs) == 0 {
 					if owner {
 						rep.Count("points_rejected_lacking_shard_key", 1)
@@ -930,7 +966,7 @@ func c11RunConfig(rep *kit.Report, cfg c11Config, thorough bool, owner bool, con
 			}
 			switch {
 			case len(shs) == 0:
-				vio("point_in_no_shard", phase+" "+p.String(), fmt.Sprintf("the writer sent the point to no shard (write error: %v)", err))
+				vio("point_in_no_shard", phase+" "+p.String(), fmt.Sprintf("the point has every tag of its measurement's shard key %v, but the writer sent it to no shard (write error: %v)", w.keys[mi], err))
 				continue
 			case len(shs) > 1:
 				vio("point_in_several_shards", phase+" "+p.String(), fmt.Sprintf("the writer sent the point to shards %v", shs))
@@ -947,9 +983,9 @@ func c11RunConfig(rep *kit.Report, cfg c11Config, thorough bool, owner bool, con
 			if prev, ok := firstShard[pidGroup{pid, g.ID}]; !ok {
 				firstShard[pidGroup{pid, g.ID}] = shs[0]
 			} else if prev != shs[0] {
-				vio("point_shard_not_deterministic", p.String(), fmt.Sprintf("group %d: an earlier write of the same point went to shard %d, %s goes to shard %d", g.ID, prev, phase, shs[0]))
+				vio("point_shard_not_deterministic", c11Msts[mi]+" "+p.String(), fmt.Sprintf("group %d: an earlier write of the same point went to shard %d, %s goes to shard %d", g.ID, prev, phase, shs[0]))
 			}
-			stored[c11Stored{pid, shs[0]}] = true
+			stored[mi][c11Stored{pid % n, shs[0]}] = true
 			if owner {
 				rep.Count("points_routed", 1)
 			}
@@ -983,6 +1019,51 @@ func c11RunConfig(rep *kit.Report, cfg c11Config, thorough bool, owner bool, con
 		sent, err := w.write(points, []int{pid})
 		checkWrite("phase2/single", []int{pid}, sent, err)
 	}
+	// mixed requests: rows of two or three measurements (different measurement-level shard keys, with and without
+	// key) interleaved in one write request, every measurement sequence, row by row and block by block, ascending
+	// and descending times. A point must go where it goes when written alone and no valid row may be rejected.
+	var mix []int
+	for pid, p := range points {
+		if p.Usage == 0 && (p.T == cfg.b(0) || p.T == cfg.b(1)-1 || p.T == cfg.b(1) || p.T == cfg.split()+1) {
+			mix = append(mix, pid)
+		}
+	}
+	for mi := 1; mi < len(c11Msts); mi++ {
+		for _, pid := range mix {
+			sent, err := w.write(points, []int{mi*n + pid})
+			checkWrite("alone", []int{mi*n + pid}, sent, err)
+		}
+	}
+	mixDesc := make([]int, len(mix))
+	for i := range mix {
+		mixDesc[len(mix)-1-i] = mix[i]
+	}
+	for si, seq := range [][]int{{0, 1}, {1, 0}, {0, 2}, {2, 0}, {1, 2}, {2, 1}, {0, 1, 2}, {0, 2, 1}, {1, 0, 2}, {1, 2, 0}, {2, 0, 1}, {2, 1, 0}} {
+		for oi, ord := range [][]int{mix, mixDesc} {
+			var fine, block []int
+			for _, pid := range ord {
+				for _, mi := range seq {
+					fine = append(fine, mi*n+pid)
+				}
+			}
+			for _, mi := range seq {
+				for _, pid := range ord {
+					block = append(block, mi*n+pid)
+				}
+			}
+			sent, err := w.write(points, fine)
+			checkWrite(fmt.Sprintf("mixed request (measurements %v row by row, time order %d)", seq, oi), fine, sent, err)
+			sent, err = w.write(points, block)
+			checkWrite(fmt.Sprintf("mixed request (measurements %v block by block, time order %d)", seq, oi), block, sent, err)
+			if owner && si == 0 && oi == 0 {
+				rep.Max("max_rows_per_mixed_request", int64(len(fine)))
+			}
+		}
+	}
+	if owner {
+		rep.Count("mixed_measurement_requests", 48)
+	}
+
 	rp, _ := w.data.RetentionPolicy(c11DB, c11RP)
 	if owner {
 		rep.Max("max_groups", int64(len(rp.ShardGroups)))
@@ -991,16 +1072,19 @@ func c11RunConfig(rep *kit.Report, cfg c11Config, thorough bool, owner bool, con
 		}
 	}
 
-	storedList := make([]c11Stored, 0, len(stored))
-	for s := range stored {
-		storedList = append(storedList, s)
-	}
-	sort.Slice(storedList, func(i, j int) bool {
-		if storedList[i].pid != storedList[j].pid {
-			return storedList[i].pid < storedList[j].pid
+	storedLists := make([][]c11Stored, len(c11Msts))
+	for mi := range stored {
+		for st := range stored[mi] {
+			storedLists[mi] = append(storedLists[mi], st)
 		}
-		return storedList[i].shard < storedList[j].shard
-	})
+		l := storedLists[mi]
+		sort.Slice(l, func(i, j int) bool {
+			if l[i].pid != l[j].pid {
+				return l[i].pid < l[j].pid
+			}
+			return l[i].shard < l[j].shard
+		})
+	}
 
 	// read side
 	for ci, cc := range conds {
@@ -1010,18 +1094,29 @@ func c11RunConfig(rep *kit.Report, cfg c11Config, thorough bool, owner bool, con
 		if rep.Expired() {
 			return
 		}
-		c11CheckCond(rep, w, cfg, tier, points, storedList, cc)
+		c11CheckCond(rep, w, cfg, tier, 0, points, storedLists[0], cc)
 		// the programmatic tree differs from the parsed one only where the text needs parentheses
 		if !cc.plain && cc.tree.atoms() == 3 {
-			c11CheckDirect(rep, w, cfg, tier, points, storedList, cc)
+			c11CheckDirect(rep, w, cfg, tier, points, storedLists[0], cc)
+		}
+		// the other measurements: conditions of one and two atoms
+		if cc.tree.atoms() <= 2 {
+			for mi := 1; mi < len(c11Msts); mi++ {
+				c11CheckCond(rep, w, cfg, tier, mi, points, storedLists[mi], cc)
+			}
 		}
 	}
 }
 
-func c11CheckCond(rep *kit.Report, w *c11World, cfg c11Config, tier string, points []c11Point, stored []c11Stored, cc c11CondCase) {
+func c11CheckCond(rep *kit.Report, w *c11World, cfg c11Config, tier string, mi int, points []c11Point, stored []c11Stored, cc c11CondCase) {
 	text := cc.text(cfg)
 	name := cc.name()
-	shards, tmin, tmax, condStr, err := w.mapQuery(text)
+	mst := c11Msts[mi]
+	from := ""
+	if mi > 0 {
+		from = fmt.Sprintf("FROM %s (shard key %v) ", mst, w.keys[mi])
+	}
+	shards, tmin, tmax, condStr, err := w.mapQuery(mst, text)
 	if err != nil {
 		rep.Count("queries_rejected_by_planner", 1)
 		rep.Sample(3, map[string]string{"rejected": text, "err": err.Error()})
@@ -1071,13 +1166,13 @@ func c11CheckCond(rep *kit.Report, w *c11World, cfg c11Config, tier string, poin
 			ids = append(ids, id)
 		}
 		sort.Slice(ids, func(i, j int) bool { return ids[i] < ids[j] })
-		rep.Violation(kind, cfg.String()+" | WHERE "+name,
+		rep.Violation(kind, cfg.String()+" | "+from+"WHERE "+name,
 			fmt.Sprintf("point %s is stored in shard %d and satisfies WHERE %s, but the query consults only shards %v (of %d in range; mapped time range [%d,%d], condition passed to the mapper: %s)",
 				p.String(), s.shard, text, ids, all, tmin, tmax, condStr),
-			c11Case{Cfg: cfg, Where: name, Tier: tier})
+			c11Case{Cfg: cfg, Where: name, Tier: tier, Mst: mst})
 	}
 	if nMatch > 0 && nMiss > 0 && len(shards) < all {
-		if rep.DistinctNontrivial(kit.Hash(cfg.String(), name)) {
+		if rep.DistinctNontrivial(kit.Hash(cfg.String(), mst, name)) {
 			rep.Sample(8, map[string]interface{}{"config": cfg.String(), "where": text, "shards_consulted": len(shards), "shards_in_range": all, "points_matching": nMatch, "points_not_matching": nMiss})
 		}
 		rep.Count("pruned_nontrivial_pairs", 1)
